@@ -234,6 +234,12 @@ type C01Plan struct {
 	// "##DNA " and the like on the writer side).
 	IDPrefix string `json:"id_prefix,omitempty"`
 
+	// TemplateAlpha != "": the reader's template declares this alphabet while
+	// the letters come from Alpha (the readers do not validate letters);
+	// TemplateOffset > 0: the template carries a start offset.
+	TemplateAlpha  string `json:"template_alpha,omitempty"`
+	TemplateOffset int    `json:"template_offset,omitempty"`
+
 	tmpl seqio.SequenceAppender // a template shared with other readers (multi-instance cases)
 	// TemplateCap > 0: the reader's template is empty but preallocated.
 	TemplateCap int            `json:"template_cap,omitempty"`
@@ -343,6 +349,12 @@ func genC01(r *simrt.RNG) *Case {
 	if r.Intn(6) == 0 {
 		pl.TemplateCap = r.Pick(1, 16, 1024, 5000)
 	}
+	if r.Intn(10) == 0 {
+		pl.TemplateAlpha = alphaNames[r.Intn(len(alphaNames))]
+	}
+	if r.Intn(10) == 0 {
+		pl.TemplateOffset = r.Pick(1, 2, 7, 100)
+	}
 	if r.Intn(3) == 0 {
 		pl.WriteFault = 1 + r.Intn(1<<20)
 		if r.Bool() {
@@ -379,17 +391,22 @@ func seqTemplate(pl *C01Plan) seqio.SequenceAppender {
 		return pl.tmpl
 	}
 	alpha := alphaOf[pl.Alpha]
+	if pl.TemplateAlpha != "" {
+		alpha = alphaOf[pl.TemplateAlpha]
+	}
 	if pl.Qual {
 		t := linear.NewQSeq("", nil, alpha, alphabet.Encoding(pl.Enc))
 		if pl.TemplateCap > 0 {
 			t.Seq = make(alphabet.QLetters, 0, pl.TemplateCap) // an empty template with room to grow
 		}
+		t.Offset = pl.TemplateOffset
 		return t
 	}
 	t := linear.NewSeq("", nil, alpha)
 	if pl.TemplateCap > 0 {
 		t.Seq = make(alphabet.Letters, 0, pl.TemplateCap)
 	}
+	t.Offset = pl.TemplateOffset
 	return t
 }
 
@@ -732,6 +749,22 @@ func genPairC01(r *simrt.RNG) *Case {
 		Sched: Sched{Strategy: fmt.Sprintf("rw:%g", []float64{0.2, 0.5, 1}[r.Intn(3)]), Seed: r.Uint64()}}
 }
 
+// genColdC01: the process's first use of the sequence formats, by several
+// instances at once: two FASTQ round trips with qualities and a FASTA one.
+func genColdC01(r *simrt.RNG) *Case {
+	var pp PairPlan
+	want := []string{"fastq", "fastq", "fasta"}
+	for _, f := range want {
+		pl := smallSeqPlan(r)
+		for try := 0; try < 40 && (pl.Format != f || (f == "fastq" && !pl.Qual) || len(pl.Recs) == 0); try++ {
+			pl = smallSeqPlan(r)
+		}
+		pp.Seq = append(pp.Seq, pl)
+	}
+	return &Case{Prop: "C01", Kind: "pair", Plan: marshalPlan(pp),
+		Sched: Sched{Strategy: fmt.Sprintf("rw:%g", []float64{0.2, 0.5, 1}[r.Intn(3)]), Seed: r.Uint64()}}
+}
+
 func runPair(t *testing.T, c *Case, o RunOpts) *Result {
 	noteCase(c)
 	defer progress.Add(1)
@@ -871,6 +904,7 @@ func init() {
 	register(&Property{
 		ID: "C01",
 		Explore: func(t *testing.T, w *Worker, r *simrt.RNG) {
+			w.Cold(t, genColdC01)
 			if w.unit == 0 {
 				// once per check: records far beyond any plausible internal limit
 				for _, h := range hugeC01() {
